@@ -1,15 +1,16 @@
 package main
 
 import (
-	"syscall"
-	"runtime"
-	"os"
 	"bytes"
 	"context"
 	"encoding/json"
+	"errors"
 	"fmt"
 	"io"
+	"os"
+	"runtime"
 	"strings"
+	"syscall"
 
 	"github.com/hedzr/is"
 	"github.com/hedzr/is/term/color"
@@ -157,6 +158,12 @@ func c02args(r *gen.R, depthMax int) ([]any, []string) {
 				g = slog.Group(fmt.Sprintf("g%d", j), "pre", j, g, "post", r.Str(so))
 			}
 			add(fmt.Sprintf("group-depth-%d", d+1), g)
+		case x < 88: // an application object that writes itself (ObjectMarshaller); every other one gives up with an error AFTER it opened its object
+			acc := c02account{Name: r.Str(so), Balance: []int{10, -1}[r.Intn(2)]}
+			if acc.Balance < 0 {
+				c02laxJSON = true // (an object its owner left open: the record still ends with its line break, in one Write)
+			}
+			add("object-marshaller", key(i), acc)
 		case x < 90: // empty group
 			add("empty-group", slog.Group(key(i)))
 		case x < 93:
@@ -197,7 +204,39 @@ type c02dest struct {
 
 var c02thisFile = func() string { _, f, _, _ := runtime.Caller(0); return f }()
 
+// c02laxJSON: the arguments of the current case hold an object marshaller that gives up after opening its object; the
+// JSON around it cannot be required to be well-formed then (user marshallers are outside C04's domain too)
+var c02laxJSON bool
+
+// c02account is an application type that writes itself into the record (slog.ObjectMarshaller); with a negative balance
+// it finds out too late - after it opened its object - and returns an error (it does not panic).
+type c02account struct {
+	Name    string
+	Balance int
+}
+
+func (a c02account) MarshalSlogObject(enc *slog.PrintCtx) error {
+	enc.Begin()
+	enc.AddString("name", a.Name)
+	if a.Balance < 0 {
+		return errors.New("account: negative balance")
+	}
+	enc.AddComma()
+	enc.AddInt("balance", a.Balance)
+	enc.End(false)
+	return nil
+}
+
 func c02main(c *Ctx) {
+	cwdGone := false
+	if c.X("cwdgone", "") == "1" {
+		// the working directory of the process has been removed under it: a call still returns, with its one Write
+		if d, err := os.MkdirTemp("", "c02-gone-*"); err == nil && os.Chdir(d) == nil {
+			_ = os.Remove(d)
+			cwdGone = true
+			c.R.Add("processes_whose_working_directory_was_removed", 1)
+		}
+	}
 	log := mon.NewLog()
 	const nW = 5
 	var pool []io.Writer
@@ -229,6 +268,7 @@ func c02main(c *Ctx) {
 	slog.AddFlags(slog.LnoInterrupt)
 	savedDefault := slog.Default()
 	c.Each(func(idx int, r *gen.R) {
+		c02laxJSON = false
 		defer slog.SetDefault(savedDefault)
 		restore := withFlags(0, 0)
 		defer restore()
@@ -278,7 +318,7 @@ func c02main(c *Ctx) {
 		}
 		// a logger that is never given a normal or an error writer: the destinations selected for it are the package's
 		// default devices (fds 1 and 2 of this process, observed through files), whatever per-level writers it gets
-		defaultDev := r.P(8)
+		defaultDev := r.P(8) && !cwdGone // (the device files of that variant are made in the working directory)
 		if defaultDev {
 			d.normal, d.errs = nil, nil
 			c.R.Add("calls_on_a_logger_left_to_the_default_devices", 1)
@@ -672,13 +712,13 @@ func wholeRecord(f Format, p []byte, id string, blank, testing bool) string {
 	switch f {
 	case FJSON:
 		line := p[:len(p)-1]
-		if len(line) < 2 || line[0] != '{' || line[len(line)-1] != '}' {
+		if len(line) < 2 || line[0] != '{' || (line[len(line)-1] != '}' && !c02laxJSON) {
 			return "JSON record does not start with { and end with }"
 		}
 		if bytes.IndexByte(line, '\n') >= 0 {
 			return "JSON record spans several lines"
 		}
-		if !json.Valid(line) {
+		if !json.Valid(line) && !c02laxJSON {
 			var v any
 			return fmt.Sprintf("not valid JSON (%v)", json.Unmarshal(line, &v))
 		}
